@@ -174,10 +174,10 @@ def exc_digest(e):
 
 # ---- cold generation pass ---------------------------------------------------------------------------
 
-def generate_cold(seed, spec, rng, nops, weights, seed_ops=("blocks",), on_op=None, shadow=True):
+def generate_cold(seed, spec, rng, nops, weights, seed_ops=("blocks",), on_op=None, shadow=True, cache_impl="off"):
     """Generate the program of one task alone, cache seam off, fresh world.
     Returns (program, {uid: [digests of outputs]}, task)."""
-    w = core.World(seed, cache_impl="off", lapack=False)
+    w = core.World(seed, cache_impl=cache_impl, lapack=False)
     w.generating = True      # oracles living inside ops stay silent during the generation pass
     try:
         task = e1.task_from_spec(spec)
